@@ -6,9 +6,11 @@ Model: `CLModel/Model/BigNum.lean` (`Spec.*` = integer arithmetic, `Rust.*` = `s
 `Ossl.*` = `src/bn/openssl.rs`).  Every theorem is for **all** integers (no size bound).  For
 each operation: `Rust.op = Spec.op` and `Ossl.op = Spec.op` on the stated domain (an `err` on
 either side is part of the equality: "an error, not a wrong value, where the result is
-undefined").  Where the full-strength statement is false on the pinned tree the file holds
-the `_partial` theorem under the excluding hypothesis and a `_finding_` theorem that proves
-the negation on the concrete witness (the replay input of the known finding).
+undefined").  The defects found by the first version of this file (negative operands of the
+pure-Rust `inverse`, zero moduli, `0^0`, sign loss in the OpenSSL `increment`, lenient text
+parsing, …) are repaired in `/repo`; the theorems below are the full-strength statements about
+the repaired code.  Hypotheses that remain delimit the domain of the property statement
+(bit operations on non-negative values, exponents of `exp` below `2^64`).
 -/
 namespace CL.C17
 open CL CL.BN CL.Outcome
@@ -135,22 +137,19 @@ theorem spec_inverse_correct (a n : ℤ) (hn : 2 ≤ n.natAbs) :
 theorem spec_inverse_degenerate (a n : ℤ) (hn : n.natAbs ≤ 1) : Spec.inverse a n = err := by
   simp [Spec.inverse, hn]
 
-/-- **`Rust.inverse` (own extended Euclid) is correct for a non-negative operand**: loop
-invariant `r ≡ a·t (mod n)` (`Rust.LoopInv.cong_r`), termination within the fuel `|a| + 1`
-(`Rust.inverseLoop_spec`: the model's `panic` branch is unreachable), the result lies in
-`[0, |n|)` with `a·t ≡ 1`, and a non-invertible operand is an error.
-
-Full statement (false on the pinned tree): `∀ a n, Rust.inverse a n = Spec.inverse a n`.
-Excluded: negative operands (`rust_inverse_finding_negative`) and the modulus `-1`
-(`rust_inverse_finding_modulus_minus_one`). -/
-theorem rust_inverse_refines_spec_partial (a n : ℤ) (ha : 0 ≤ a) (hn : n ≠ -1) :
-    Rust.inverse a n = Spec.inverse a n := by
+/-- **`Rust.inverse` (own extended Euclid) agrees with the specification for every operand and
+every modulus**: the operand is reduced into `[0, |n|)`, on which the loop invariant
+`r ≡ a·t (mod n)` (`Rust.LoopInv.cong_r`) holds; the loop terminates within the fuel
+(`Rust.inverseLoop_spec`: the model's `panic` branch is unreachable); the result lies in
+`[0, |n|)` with `a·t ≡ 1`; a non-invertible operand and the moduli `0, ±1` are errors. -/
+theorem rust_inverse_refines_spec (a n : ℤ) : Rust.inverse a n = Spec.inverse a n := by
   by_cases hdeg : n.natAbs ≤ 1
-  · have : n = 1 ∨ n = 0 := by omega
+  · have : (n.natAbs : ℤ) = 1 ∨ (n.natAbs : ℤ) = 0 := by omega
     rw [spec_inverse_degenerate a n hdeg]
-    simp [Rust.inverse, this]
+    unfold Rust.inverse
+    simp only [Rust.getModulus_eq, this, if_true]
   · have h2 : 2 ≤ n.natAbs := by omega
-    obtain ⟨r1, r2⟩ := Rust.inverse_correct a n ha h2
+    obtain ⟨r1, r2⟩ := Rust.inverse_correct a n h2
     obtain ⟨s1, s2⟩ := Spec.inverse_correct a n h2
     by_cases hg : Int.gcd a n = 1
     · obtain ⟨t, ht, ht0, ht1, ht2⟩ := r2 hg
@@ -158,54 +157,33 @@ theorem rust_inverse_refines_spec_partial (a n : ℤ) (ha : 0 ≤ a) (hn : n ≠
       rw [ht, hu, inverse_unique ⟨ht0, ht1, ht2⟩ ⟨hu0, hu1, hu2⟩]
     · rw [r1 hg, s1 hg]
 
-/-- never a panic, never a wrong value for a non-negative operand: the outcome is `err` or the
-inverse -/
-theorem rust_inverse_correct (a n : ℤ) (ha : 0 ≤ a) (hn : 2 ≤ n.natAbs) :
+/-- never a panic, never a wrong value: the outcome is `err` or the inverse -/
+theorem rust_inverse_correct (a n : ℤ) (hn : 2 ≤ n.natAbs) :
     (Int.gcd a n ≠ 1 → Rust.inverse a n = err) ∧
     (Int.gcd a n = 1 → ∃ t, Rust.inverse a n = ok t ∧ 0 ≤ t ∧ t < (n.natAbs : ℤ) ∧
       (n.natAbs : ℤ) ∣ 1 - a * t) :=
-  Rust.inverse_correct a n ha hn
+  Rust.inverse_correct a n hn
 
 /-- the loop invariant `r ≡ a·t (mod m)` holds initially and is preserved by every iteration
-(for a non-negative operand) -/
+(for a non-negative operand, which is what the loop receives) -/
 theorem rust_inverse_loop_invariant (m a t nt r nr s : ℤ) (h : Rust.LoopInv m a t nt r nr s)
     (hnr : nr ≠ 0) :
     m ∣ nr - a * nt ∧
     Rust.LoopInv m a nt (t - Int.tdiv r nr * nt) nr (r - Int.tdiv r nr * nr) (-s) :=
   ⟨h.cong_nr, h.step hnr⟩
 
-/-- **finding**: for the negative operand `-3` the pure-Rust back-end returns `2`
-(`-3·2 ≡ -1 (mod 5)`; the loop ends with `r = -1`, which the test `r > 1` lets through);
-integer arithmetic prescribes `3`. -/
-theorem rust_inverse_finding_negative :
-    Rust.inverse (-3) 5 = ok 2 ∧ Spec.inverse (-3) 5 = ok 3 ∧
-    ¬ (Rust.inverse (-3) 5 = Spec.inverse (-3) 5) := by
-  decide
-
-/-- **finding**: a non-invertible negative operand yields a value instead of an error -/
-theorem rust_inverse_finding_negative_noninvertible :
-    Rust.inverse (-2) 4 = ok 1 ∧ Spec.inverse (-2) 4 = err := by
-  decide
-
-/-- **finding**: the guard `n.is_one()` is evaluated before `_get_modulus`, so the modulus
-`-1` is accepted (`0` is returned) although `1` is rejected -/
-theorem rust_inverse_finding_modulus_minus_one :
-    Rust.inverse 3 (-1) = ok 0 ∧ Rust.inverse 3 1 = err ∧ Spec.inverse 3 (-1) = err := by
-  decide
+/-- the inputs on which the unrepaired code was wrong -/
+example : Rust.inverse (-3) 5 = ok 3 ∧ Rust.inverse (-2) 4 = err ∧ Rust.inverse 3 (-1) = err ∧
+    Rust.inverse 3 1 = err ∧ Rust.inverse 3 47 = ok 16 := by decide
 
 /-- OpenSSL: `BN_mod_inverse` as stated is the specification, for every operand and modulus -/
 theorem ossl_inverse_refines_spec (a n : ℤ) : Ossl.inverse a n = Spec.inverse a n := rfl
 
 /-- `mod_div = a · b⁻¹ mod |n|` -/
-theorem rust_mod_div_refines_spec_partial (a b n : ℤ) (hb : 0 ≤ b) (hn : n ≠ -1) :
-    Rust.modDiv a b n = Spec.modDiv a b n := by
+theorem rust_mod_div_refines_spec (a b n : ℤ) : Rust.modDiv a b n = Spec.modDiv a b n := by
   unfold Rust.modDiv Spec.modDiv
-  rw [rust_inverse_refines_spec_partial b n hb hn]
+  rw [rust_inverse_refines_spec b n]
   cases Spec.inverse b n <;> simp [Rust.mul, rust_modulus_refines_spec]
-
-theorem rust_mod_div_finding_negative_divisor :
-    Rust.modDiv 1 (-3) 5 = ok 2 ∧ Spec.modDiv 1 (-3) 5 = ok 3 := by
-  decide
 
 theorem ossl_mod_div_refines_spec (a b n : ℤ) : Ossl.modDiv a b n = Spec.modDiv a b n := by
   unfold Ossl.modDiv Spec.modDiv
@@ -220,79 +198,55 @@ theorem spec_mod_exp_fast_eq (a e n : ℤ) : Spec.modExpFast a e n = Spec.modExp
 
 theorem spec_exp_fast_eq (a k : ℤ) : Spec.expFast a k = Spec.exp a k := Spec.expFast_eq a k
 
-/-- **`mod_exp`, non-negative exponent** (pure Rust): the `b == 1` special case,
-`_get_modulus` and `modpow` give `a^e mod |n|` for every base, every exponent `≥ 0` and every
-non-zero modulus of either sign.
-
-Full statement (false on the pinned tree): also `n = 0 ↦ err`; see
-`rust_mod_exp_finding_zero_modulus` (the model, like the code, panics). -/
-theorem rust_mod_exp_refines_spec_partial (a e n : ℤ) (he : 0 ≤ e) (hn : n ≠ 0) :
-    Rust.modExp a e n = Spec.modExp a e n := by
+/-- **`mod_exp`** (pure Rust) agrees with integer arithmetic for every base, every exponent of
+either sign and every modulus of either sign: zero modulus ↦ error; non-negative exponent ↦
+`a^e mod |n|` (the `b == 1` special case, `_get_modulus` and `modpow`); negative exponent ↦
+the `|e|`-th power of the inverse, an error when the base is not invertible. -/
+theorem rust_mod_exp_refines_spec (a e n : ℤ) : Rust.modExp a e n = Spec.modExp a e n := by
   unfold Rust.modExp Spec.modExp
-  have h1 : ¬ e < 0 := by omega
-  simp only [hn, he, h1, if_false, if_true]
-  by_cases h : n = 1
-  · subst h; simp
-  · simp only [h, if_false]
+  by_cases hn : n = 0
+  · simp [hn]
+  · simp only [hn, if_false]
     have hm : 0 < Rust.getModulus n := by rw [Rust.getModulus_eq]; omega
-    rw [Rust.modpow_eq a e _ he hm, Rust.getModulus_eq, emod_natAbs]
+    by_cases he : e < 0
+    · have h2 : ¬ 0 ≤ e := by omega
+      simp only [he, h2, if_true, if_false]
+      rw [rust_inverse_refines_spec a n]
+      cases Spec.inverse a n with
+      | err => rfl
+      | panic => rfl
+      | ok ai =>
+        simp only [bind_ok]
+        have hs : Rust.setNegative e false = ok (-e) := by simp [Rust.setNegative, he]
+        rw [hs]
+        simp only [bind_ok]
+        rw [Rust.modpow_eq ai (-e) _ (by omega) hm, Rust.getModulus_eq, emod_natAbs]
+    · have h2 : 0 ≤ e := by omega
+      simp only [he, h2, if_true, if_false]
+      by_cases h : n = 1
+      · subst h; simp
+      · simp only [h, if_false]
+        rw [Rust.modpow_eq a e _ h2 hm, Rust.getModulus_eq, emod_natAbs]
 
-/-- **`mod_exp`, negative exponent** (pure Rust) is the `|e|`-th power of the inverse, and an
-error when the base is not invertible — for a non-negative base and a modulus `≠ 0, ±1`
-(the domain on which `Rust.inverse` is correct).
-
-Excluded from the full statement: a negative base (`rust_mod_exp_finding_negative_base`) and
-the moduli `±1` (`rust_mod_exp_finding_unit_modulus`). -/
-theorem rust_mod_exp_negative_exponent_partial (a e n : ℤ) (he : e < 0) (ha : 0 ≤ a)
-    (hn : 2 ≤ n.natAbs) : Rust.modExp a e n = Spec.modExp a e n := by
-  unfold Rust.modExp Spec.modExp
-  have h0 : n ≠ 0 := by omega
-  have h1 : n ≠ 1 := by omega
-  have h2 : ¬ 0 ≤ e := by omega
-  simp only [h0, h1, he, h2, if_false, if_true]
-  rw [rust_inverse_refines_spec_partial a n ha (by omega)]
-  cases Spec.inverse a n with
-  | err => rfl
-  | panic => rfl
-  | ok ai =>
-    simp only [bind_ok]
-    have hs : Rust.setNegative e false = ok (-e) := by
-      simp [Rust.setNegative, he]
-    rw [hs]
-    simp only [bind_ok]
-    have hm : 0 < Rust.getModulus n := by rw [Rust.getModulus_eq]; omega
-    rw [Rust.modpow_eq ai (-e) _ (by omega) hm, Rust.getModulus_eq, emod_natAbs]
-
-/-- **finding**: a zero modulus with a non-negative exponent reaches `modpow`, which panics -/
-theorem rust_mod_exp_finding_zero_modulus :
-    Rust.modExp 6 5 0 = panic ∧ Spec.modExp 6 5 0 = err := by decide
-
-/-- **finding**: negative base with negative exponent inherits the wrong inverse -/
-theorem rust_mod_exp_finding_negative_base :
-    Rust.modExp (-3) (-1) 5 = ok 2 ∧ Spec.modExp (-3) (-1) 5 = ok 3 := by decide
-
-/-- **finding**: for the modulus `1` the special case answers `0` before the inverse is tried -/
-theorem rust_mod_exp_finding_unit_modulus :
-    Rust.modExp 6 (-1) 1 = ok 0 ∧ Spec.modExp 6 (-1) 1 = err := by decide
-
-/-- the crate's own example `6^(-5) mod 13 = 7` on all three variants -/
+/-- the crate's own example `6^(-5) mod 13 = 7` on all three variants, and the inputs on which
+the unrepaired code was wrong -/
 theorem mod_exp_example :
-    Rust.modExp 6 (-5) 13 = ok 7 ∧ Ossl.modExp 6 (-5) 13 = ok 7 ∧ Spec.modExp 6 (-5) 13 = ok 7 := by
+    Rust.modExp 6 (-5) 13 = ok 7 ∧ Ossl.modExp 6 (-5) 13 = ok 7 ∧ Spec.modExp 6 (-5) 13 = ok 7 ∧
+    Rust.modExp 6 5 0 = err ∧ Rust.modExp (-3) (-1) 5 = ok 3 ∧ Rust.modExp 6 (-1) 1 = err ∧
+    Ossl.modExp 5 0 0 = err := by
   decide
 
-/-- **`mod_exp`** (OpenSSL wrapper): agrees with integer arithmetic for every base, every
-exponent of either sign and every modulus — except the single combination zero exponent with
-zero modulus (`ossl_mod_exp_finding_zero_zero`). -/
-theorem ossl_mod_exp_refines_spec_partial (a e n : ℤ) (h : ¬ (e = 0 ∧ n = 0)) :
-    Ossl.modExp a e n = Spec.modExp a e n := by
+/-- **`mod_exp`** (OpenSSL wrapper) agrees with integer arithmetic for every base, exponent
+and modulus -/
+theorem ossl_mod_exp_refines_spec (a e n : ℤ) : Ossl.modExp a e n = Spec.modExp a e n := by
   unfold Ossl.modExp Spec.modExp
-  by_cases he : e < 0
-  · have h2 : ¬ 0 ≤ e := by omega
-    simp only [he, h2, if_true, if_false]
-    rw [ossl_inverse_refines_spec]
-    by_cases hn : n = 0
-    · subst hn; simp [Spec.inverse]
-    · simp only [hn, if_false]
+  by_cases hn : n = 0
+  · simp [hn]
+  · simp only [hn, if_false]
+    by_cases he : e < 0
+    · have h2 : ¬ 0 ≤ e := by omega
+      simp only [he, h2, if_true, if_false]
+      rw [ossl_inverse_refines_spec]
       cases Spec.inverse a n with
       | err => rfl
       | panic => rfl
@@ -303,66 +257,52 @@ theorem ossl_mod_exp_refines_spec_partial (a e n : ℤ) (h : ¬ (e = 0 ∧ n = 0
         rw [hs]
         simp only [bind_ok, Ossl.bnModExp, hn, if_false]
         rw [powMod_cast ai (-e).toNat n hn]
-  · have h2 : 0 ≤ e := by omega
-    simp only [he, h2, if_true, if_false, Ossl.bnModExp]
-    by_cases hn : n = 0
-    · have : e ≠ 0 := fun h0 => h ⟨h0, hn⟩
-      simp [hn, this]
-    · simp only [hn, if_false]
+    · have h2 : 0 ≤ e := by omega
+      simp only [he, h2, if_true, if_false, Ossl.bnModExp, hn]
       rw [powMod_cast a e.toNat n hn]
 
-theorem ossl_mod_exp_finding_zero_zero :
-    Ossl.modExp 5 0 0 = ok 1 ∧ Spec.modExp 5 0 0 = err := by decide
-
-/-- **`exp`** (pure Rust): the special cases `bits() == 0` and `a.is_one()` and `pow` agree
-with `a^k` for every base and every exponent `0 ≤ k < 2^64`, except `0^0`.
-
-Full statement (false): `∀ a k, Rust.exp a k = Spec.exp a k`.  Excluded: `a = 0 ∧ k ≤ 0`
-(`rust_exp_finding_zero_zero`, `rust_exp_finding_zero_negative`); exponents `≥ 2^64` are
-refused (`to_u64`), which only matters for the bases `0, ±1`. -/
-theorem rust_exp_refines_spec_partial (a k : ℤ) (hk : 0 ≤ k) (hk64 : k < 2 ^ 64)
-    (h00 : ¬ (a = 0 ∧ k = 0)) : Rust.exp a k = Spec.exp a k := by
+/-- **`exp`** (pure Rust): a negative exponent is an error, `a^0 = 1` (including `0^0`), and the
+special cases `bits() == 0`, `a.is_one()` and `pow` agree with `a^k` — for every base and every
+exponent below `2^64` (larger exponents are refused by `to_u64`, which only matters for the
+bases `0, ±1`: `rust_exp_huge_exponent_refused`). -/
+theorem rust_exp_refines_spec (a k : ℤ) (hk64 : k < 2 ^ 64) : Rust.exp a k = Spec.exp a k := by
   unfold Rust.exp Spec.exp
-  have h1 : ¬ k < 0 := by omega
-  simp only [h1, if_false]
-  by_cases ha : a = 0
-  · subst ha
-    have hk0 : k.toNat ≠ 0 := by
-      have : k ≠ 0 := fun h => h00 ⟨rfl, h⟩
-      omega
-    simp [natBits_zero, zero_pow hk0]
-  · have hb : natBits a.natAbs ≠ 0 := by
-      rw [Ne, natBits_eq_zero_iff]; omega
-    simp only [hb, if_false]
-    by_cases h1 : k = 1
-    · subst h1; simp
-    · have : 0 ≤ k ∧ k < 18446744073709551616 := ⟨hk, by norm_num at hk64; exact hk64⟩
-      simp only [h1, this, and_self, if_true, if_false, powInt_eq]
+  by_cases hneg : k < 0
+  · simp [hneg]
+  · simp only [hneg, if_false]
+    by_cases hk0 : k = 0
+    · subst hk0; simp
+    · simp only [hk0, if_false]
+      by_cases ha : a = 0
+      · subst ha
+        have : k.toNat ≠ 0 := by omega
+        simp [natBits_zero, zero_pow this]
+      · have hb : natBits a.natAbs ≠ 0 := by
+          rw [Ne, natBits_eq_zero_iff]; omega
+        simp only [hb, if_false]
+        by_cases h1 : k = 1
+        · subst h1; simp
+        · have : 0 ≤ k ∧ k < 18446744073709551616 := ⟨by omega, by norm_num at hk64; exact hk64⟩
+          simp only [h1, this, and_self, if_true, if_false, powInt_eq]
 
-/-- a negative exponent of a non-zero base is an error (never a value) -/
-theorem rust_exp_negative_exponent (a k : ℤ) (ha : a ≠ 0) (hk : k < 0) :
-    Rust.exp a k = Spec.exp a k := by
-  unfold Rust.exp Spec.exp
-  have hb : natBits a.natAbs ≠ 0 := by rw [Ne, natBits_eq_zero_iff]; omega
-  have h1 : k ≠ 1 := by omega
-  have h2 : ¬ (0 ≤ k ∧ k < 18446744073709551616) := by omega
-  simp [hb, h1, h2, hk]
+/-- exponents `≥ 2^64` are refused although `1^k` is defined (outside the stated domain) -/
+theorem rust_exp_huge_exponent_refused :
+    Rust.exp 1 18446744073709551616 = err ∧ Spec.exp 1 18446744073709551616 = ok 1 := by
+  constructor
+  · decide
+  · simp [Spec.exp]
 
-theorem rust_exp_finding_zero_zero : Rust.exp 0 0 = ok 0 ∧ Spec.exp 0 0 = ok 1 := by decide
-theorem rust_exp_finding_zero_negative : Rust.exp 0 (-1) = ok 0 ∧ Spec.exp 0 (-1) = err := by
-  decide
-
-/-- **`exp`** (OpenSSL): `BN_exp` agrees with `a^k` for every base and every `k ≥ 0`
-(including `0^0 = 1`); the sign of a negative exponent is ignored
-(`ossl_exp_finding_negative_exponent`). -/
-theorem ossl_exp_refines_spec_partial (a k : ℤ) (hk : 0 ≤ k) : Ossl.exp a k = Spec.exp a k := by
+/-- **`exp`** (OpenSSL): a negative exponent is an error, otherwise `BN_exp` is `a^k`
+(including `0^0 = 1`), for every base and exponent -/
+theorem ossl_exp_refines_spec (a k : ℤ) : Ossl.exp a k = Spec.exp a k := by
   unfold Ossl.exp Spec.exp
-  have h1 : ¬ k < 0 := by omega
-  have h2 : k.natAbs = k.toNat := by omega
-  simp only [h1, if_false, powInt_eq, h2]
+  by_cases h1 : k < 0
+  · simp [h1]
+  · have h2 : k.natAbs = k.toNat := by omega
+    simp only [h1, if_false, powInt_eq, h2]
 
-theorem ossl_exp_finding_negative_exponent : Ossl.exp 2 (-3) = ok 8 ∧ Spec.exp 2 (-3) = err := by
-  decide
+example : Rust.exp 0 0 = ok 1 ∧ Rust.exp 0 (-1) = err ∧ Ossl.exp 2 (-3) = err ∧
+    Rust.exp 3 5 = ok 243 := by decide
 
 /-! ## shifts and bit operations (on non-negative values), `bitwise_or_big_int` -/
 
@@ -384,41 +324,40 @@ theorem rust_is_bit_set_refines_spec (a n : ℤ) (ha : 0 ≤ a) (hn : 0 ≤ n) :
   rw [Rust.isBitSet_nat]
   simp [Spec.isBitSet]
 
-theorem rust_set_bit_refines_spec (a n : ℤ) (ha : 0 ≤ a) (hn : 0 ≤ n) :
-    Rust.setBit a n = Spec.setBit a n := by
-  obtain ⟨x, rfl⟩ := Int.eq_ofNat_of_zero_le ha
-  obtain ⟨k, rfl⟩ := Int.eq_ofNat_of_zero_le hn
-  rw [Rust.setBit_nat]
-  simp [Spec.setBit]
+/-- on a non-negative value `set_bit` is `|||`; a negative index is an error on both sides -/
+theorem rust_set_bit_refines_spec (a n : ℤ) (ha : 0 ≤ a) : Rust.setBit a n = Spec.setBit a n := by
+  by_cases hn : n < 0
+  · simp [Rust.setBit, Spec.setBit, hn]
+  · obtain ⟨x, rfl⟩ := Int.eq_ofNat_of_zero_le ha
+    obtain ⟨k, rfl⟩ := Int.eq_ofNat_of_zero_le (not_lt.mp hn)
+    rw [Rust.setBit_nat]
+    simp [Spec.setBit]
 
-/-- **finding**: a negative index of `set_bit` aborts the process on the pure-Rust back-end
-(modelled as `panic`); the specification and OpenSSL answer with an error -/
-theorem rust_set_bit_finding_negative_index :
-    Rust.setBit 5 (-1) = panic ∧ Spec.setBit 5 (-1) = err ∧ Ossl.setBit 5 (-1) = err := by
-  decide
-
-/-- OpenSSL shifts the magnitude: equal to the floor shift on non-negative values for a count
-below `2^31` (the wrapper casts the `u32` count to `i32`) -/
-theorem ossl_rshift_refines_spec_partial (a : ℤ) (n : ℕ) (ha : 0 ≤ a) (hn : n < 2147483648) :
-    Ossl.rshift a n = Spec.rshift a n := by
+/-- OpenSSL shifts the magnitude: equal to the floor shift on non-negative values; a count
+above `i32::MAX` is answered with `0`, which is the shift of every value below `2^n` -/
+theorem ossl_rshift_refines_spec (a : ℤ) (n : ℕ) (ha : 0 ≤ a)
+    (hn : n < 2147483648 ∨ a.natAbs < 2 ^ n) : Ossl.rshift a n = Spec.rshift a n := by
   unfold Ossl.rshift Spec.rshift
-  have h1 : ¬ n ≥ 2147483648 := by omega
-  simp only [h1, if_false]
   obtain ⟨x, rfl⟩ := Int.eq_ofNat_of_zero_le ha
-  by_cases hb : natBits (x : ℤ).natAbs ≤ n
-  · simp only [hb, if_true]
-    have : x < 2 ^ n := lt_two_pow_of_natBits_le (by simpa using hb)
-    congr 1
-    rw [← Int.natCast_ediv, Nat.div_eq_of_lt this]; rfl
-  · simp only [hb, if_false]
-    rw [Int.tdiv_eq_ediv_of_nonneg (by positivity)]
+  have hzero : x < 2 ^ n → (0 : ℤ) = (x : ℤ) / ((2 ^ n : ℕ) : ℤ) := by
+    intro h
+    rw [← Int.natCast_ediv, Nat.div_eq_of_lt h]; rfl
+  by_cases h1 : n > 2147483647
+  · simp only [h1, if_true]
+    have : x < 2 ^ n := by
+      rcases hn with h | h
+      · omega
+      · simpa using h
+    congr 1; exact hzero this
+  · simp only [h1, if_false]
+    by_cases hb : natBits (x : ℤ).natAbs ≤ n
+    · simp only [hb, if_true]
+      have : x < 2 ^ n := lt_two_pow_of_natBits_le (by simpa using hb)
+      congr 1; exact hzero this
+    · simp only [hb, if_false]
+      rw [Int.tdiv_eq_ediv_of_nonneg (by positivity)]
 
-/-- **finding**: a count `≥ 2^31` is an error on OpenSSL although the shift is defined -/
-theorem ossl_rshift_finding_count_cast :
-    Ossl.rshift 1024 2147483648 = err ∧ ∃ v, Spec.rshift 1024 2147483648 = ok v :=
-  ⟨by simp [Ossl.rshift], _, rfl⟩
-
-theorem ossl_rshift1_refines_spec_partial (a : ℤ) (ha : 0 ≤ a) : Ossl.rshift1 a = Spec.rshift1 a := by
+theorem ossl_rshift1_refines_spec (a : ℤ) (ha : 0 ≤ a) : Ossl.rshift1 a = Spec.rshift1 a := by
   simp [Ossl.rshift1, Spec.rshift1, Spec.rshift, Int.tdiv_eq_ediv_of_nonneg ha]
 
 theorem ossl_is_bit_set_refines_spec (a n : ℤ) (ha : 0 ≤ a) (hn : 0 ≤ n) :
@@ -456,54 +395,69 @@ theorem bitwiseOr_spec_ossl (a b : ℤ) (ha : 0 ≤ a) (hb : 0 ≤ b) :
     (fun v i _ => Ossl.isBitSet_nat v i) (fun r i => Ossl.setBit_nat r i)]
   simp [Spec.bitwiseOr]
 
-example : bitwiseOr Rust.ops 12 10 = ok 14 := by decide
+example : bitwiseOr Rust.ops 12 10 = ok 14 ∧ Rust.setBit 5 (-1) = err ∧ Ossl.setBit 5 (-1) = err := by
+  decide
 
-/-! ## OpenSSL wrapper logic that goes through `to_vec` / casts -/
+/-! ## OpenSSL wrapper logic: copies and casts -/
 
-theorem ossl_increment_refines_spec_partial (a : ℤ) (ha : 0 ≤ a) :
-    Ossl.increment a = Spec.increment a := by
-  simp [Ossl.increment, Spec.increment, abs_of_nonneg ha]
-theorem ossl_decrement_refines_spec_partial (a : ℤ) (ha : 0 ≤ a) :
-    Ossl.decrement a = Spec.decrement a := by
-  simp [Ossl.decrement, Spec.decrement, abs_of_nonneg ha]
-/-- **finding**: `BigNum::from_slice(&self.to_vec())` drops the sign -/
-theorem ossl_increment_finding_negative :
-    Ossl.increment (-5) = ok 6 ∧ Spec.increment (-5) = ok (-4) ∧
-    Ossl.decrement (-5) = ok 4 ∧ Spec.decrement (-5) = ok (-6) := by decide
-
-theorem ossl_from_u32_refines_spec_partial (n : ℕ) (h : n < 4294967296) :
-    Ossl.fromU32 n = Spec.fromU32 n := by
-  simp [Ossl.fromU32, Spec.fromU32, Nat.mod_eq_of_lt h]
-theorem ossl_from_u32_finding_truncation :
-    Ossl.fromU32 4294967301 = ok 5 ∧ Spec.fromU32 4294967301 = ok 4294967301 := by decide
+theorem ossl_increment_refines_spec (a : ℤ) : Ossl.increment a = Spec.increment a := rfl
+theorem ossl_decrement_refines_spec (a : ℤ) : Ossl.decrement a = Spec.decrement a := rfl
+theorem ossl_from_u32_refines_spec (n : ℕ) : Ossl.fromU32 n = Spec.fromU32 n := rfl
+example : Ossl.increment (-5) = ok (-4) ∧ Ossl.decrement (-5) = ok (-6) ∧
+    Ossl.fromU32 4294967301 = ok 4294967301 := by decide
 
 /-! ## bytes -/
 
-/-- `from_bytes ∘ to_bytes` is the magnitude, on both back-ends (and `to_bytes` has no
-leading zero byte for a non-zero value) -/
-theorem bytes_round_trip (a : ℤ) :
-    (Rust.toBytes a).bind Rust.fromBytes = ok (a.natAbs : ℤ) ∧
-    (Ossl.toBytes a).bind Ossl.fromBytes = ok (a.natAbs : ℤ) ∧
-    (Spec.toBytes a).bind Spec.fromBytes = ok (a.natAbs : ℤ) := by
-  refine ⟨?_, ?_, ?_⟩
-  · simp only [Rust.toBytes, Rust.fromBytes, bind_ok]
-    by_cases h : a = 0
-    · subst h; simp [ofDigits]
-    · simp only [h, if_false]; rw [ofDigits_toDigits 256 (by norm_num)]
-  · simp only [Ossl.toBytes, Ossl.fromBytes, bind_ok]; rw [ofDigits_toDigits 256 (by norm_num)]
-  · simp only [Spec.toBytes, Spec.fromBytes, bind_ok]; rw [ofDigits_toDigits 256 (by norm_num)]
-
-/-- every byte of `to_bytes` is `< 256`; no leading zero for a non-zero value -/
-theorem to_bytes_canonical (a : ℤ) (ha : a ≠ 0) :
-    Rust.toBytes a = Spec.toBytes a ∧ Ossl.toBytes a = Spec.toBytes a ∧
-    (∀ d ∈ toDigits 256 a.natAbs, d < 256) ∧ (toDigits 256 a.natAbs).head? ≠ some 0 := by
-  refine ⟨by simp [Rust.toBytes, Spec.toBytes, ha], rfl, toDigits_lt 256 (by norm_num) _, ?_⟩
-  exact (toDigits_head 256 (by norm_num) _ (by omega)).1
+/-- `to_bytes` is the minimal big-endian encoding of the magnitude (the empty string for zero)
+on both back-ends -/
+theorem to_bytes_refines_spec (a : ℤ) :
+    Rust.toBytes a = Spec.toBytes a ∧ Ossl.toBytes a = Spec.toBytes a := by
+  refine ⟨?_, rfl⟩
+  unfold Rust.toBytes Spec.toBytes
+  by_cases h : a = 0
+  · subst h; simp [toDigits_zero]
+  · simp [h]
 
 theorem from_bytes_refines_spec (bs : Bytes) :
     Rust.fromBytes bs = Spec.fromBytes bs ∧ Ossl.fromBytes bs = Spec.fromBytes bs := ⟨rfl, rfl⟩
 
+/-- `from_bytes ∘ to_bytes` is the magnitude -/
+theorem bytes_round_trip (a : ℤ) :
+    (Rust.toBytes a).bind Rust.fromBytes = ok (a.natAbs : ℤ) ∧
+    (Ossl.toBytes a).bind Ossl.fromBytes = ok (a.natAbs : ℤ) ∧
+    (Spec.toBytes a).bind Spec.fromBytes = ok (a.natAbs : ℤ) := by
+  have h : (Spec.toBytes a).bind Spec.fromBytes = ok (a.natAbs : ℤ) := by
+    simp only [Spec.toBytes, Spec.fromBytes, bind_ok]; rw [ofDigits_toDigits 256 (by norm_num)]
+  obtain ⟨h1, h2⟩ := to_bytes_refines_spec a
+  refine ⟨?_, ?_, h⟩
+  · rw [h1]; exact h
+  · rw [h2]; exact h
+
+/-- every byte of `to_bytes` is `< 256`; no leading zero byte -/
+theorem to_bytes_canonical (a : ℤ) (ha : a ≠ 0) :
+    (∀ d ∈ toDigits 256 a.natAbs, d < 256) ∧ (toDigits 256 a.natAbs).head? ≠ some 0 :=
+  ⟨toDigits_lt 256 (by norm_num) _, (toDigits_head 256 (by norm_num) _ (by omega)).1⟩
+
 /-! ## `generates_semiprime_subgroup` -/
+
+theorem generatesSemiprimeSubgroup_congr (o1 o2 : Ops)
+    (h : ∀ a e n, o1.modExp a e n = o2.modExp a e n) (g p q n : ℤ) :
+    generatesSemiprimeSubgroup o1 g p q n = generatesSemiprimeSubgroup o2 g p q n := by
+  unfold generatesSemiprimeSubgroup
+  rw [h g p n, h g q n]
+
+/-- on both back-ends the function is the one over integer arithmetic, for all arguments
+(errors of `mod_exp` included: zero modulus, non-invertible base with a negative exponent) -/
+theorem semiprime_refines_spec (g p q n : ℤ) :
+    generatesSemiprimeSubgroup Rust.ops g p q n = Spec.generatesSemiprimeSubgroup g p q n ∧
+    generatesSemiprimeSubgroup Ossl.ops g p q n = Spec.generatesSemiprimeSubgroup g p q n := by
+  constructor
+  · exact generatesSemiprimeSubgroup_congr _ _ (fun a e n => by
+      show Rust.modExp a e n = Spec.modExpFast a e n
+      rw [rust_mod_exp_refines_spec, Spec.modExpFast_eq]) g p q n
+  · exact generatesSemiprimeSubgroup_congr _ _ (fun a e n => by
+      show Ossl.modExp a e n = Spec.modExpFast a e n
+      rw [ossl_mod_exp_refines_spec, Spec.modExpFast_eq]) g p q n
 
 /-- **the three conditions** as a pure function: for a non-zero modulus and non-negative
 `p'`, `q'` the result is `g ≠ 1 ∧ g^p' mod n ≠ 1 ∧ g^q' mod n ≠ 1`, on both back-ends -/
@@ -517,11 +471,11 @@ theorem semiprime_generator (g p q n : ℤ) (hn : n ≠ 0) (hp : 0 ≤ p) (hq : 
   have hr : ∀ e : ℤ, 0 ≤ e → Rust.ops.modExp g e n = ok (g ^ e.toNat % n) := by
     intro e he
     show Rust.modExp g e n = _
-    rw [rust_mod_exp_refines_spec_partial g e n he hn, hs e he]
+    rw [rust_mod_exp_refines_spec g e n, hs e he]
   have ho : ∀ e : ℤ, 0 ≤ e → Ossl.ops.modExp g e n = ok (g ^ e.toNat % n) := by
     intro e he
     show Ossl.modExp g e n = _
-    rw [ossl_mod_exp_refines_spec_partial g e n (fun h => hn h.2), hs e he]
+    rw [ossl_mod_exp_refines_spec g e n, hs e he]
   constructor
   · unfold generatesSemiprimeSubgroup
     rw [hr p hp, hr q hq]
@@ -532,10 +486,8 @@ theorem semiprime_generator (g p q n : ℤ) (hn : n ≠ 0) (hp : 0 ≤ p) (hq : 
     by_cases h1 : g = 1 <;> by_cases h2 : g ^ p.toNat % n = 1 <;> by_cases h3 : g ^ q.toNat % n = 1 <;>
       simp [h1, h2, h3]
 
-/-- **finding**: with `n = 0` the pure-Rust back-end panics (zero modulus in `mod_exp`) -/
-theorem semiprime_finding_zero_modulus :
-    generatesSemiprimeSubgroup Rust.ops 4 3 5 0 = panic ∧
-    generatesSemiprimeSubgroup Ossl.ops 4 3 5 0 = err := by decide
+example : generatesSemiprimeSubgroup Rust.ops 4 3 5 0 = err ∧
+    generatesSemiprimeSubgroup Rust.ops 4 3 5 77 = ok true := by decide
 
 /-! ## text: parsing and printing -/
 
@@ -560,16 +512,27 @@ theorem to_text_refines_spec (a : ℤ) :
     · have : a.natAbs ≠ 0 := by omega
       simp [h0, this]
 
-/-- **every decimal numeral of the strict grammar (`-?[0-9]+`) is read with the same value by
-both back-ends** -/
-theorem from_dec_refines_spec_on_numerals (s : Text) (v : ℤ) (h : Spec.fromDec s = ok v) :
-    Rust.fromDec s = ok v ∧ Ossl.fromDec s = ok v :=
-  ⟨Spec.parseNumeral_rust 10 (Or.inl rfl) s v h, Spec.parseNumeral_ossl 10 (Or.inl rfl) s v h⟩
+/-- **`from_dec` is the specification for every text on both back-ends**: exactly the numerals
+`-?[0-9]+` are read, with their value; everything else (a leading `+`, `_`, trailing
+characters, `0x`, NUL, the empty string …) is an error -/
+theorem from_dec_refines_spec (s : Text) :
+    Rust.fromDec s = Spec.fromDec s ∧ Ossl.fromDec s = Spec.fromDec s :=
+  parsers_eq_spec 10 (Or.inl rfl) s
 
-/-- **… and every hexadecimal numeral (`-?[0-9a-fA-F]+`)** -/
-theorem from_hex_refines_spec_on_numerals (s : Text) (v : ℤ) (h : Spec.fromHex s = ok v) :
-    Rust.fromHex s = ok v ∧ Ossl.fromHex s = ok v :=
-  ⟨Spec.parseNumeral_rust 16 (Or.inr rfl) s v h, Spec.parseNumeral_ossl 16 (Or.inr rfl) s v h⟩
+/-- **… and `from_hex`** for `-?[0-9a-fA-F]+` -/
+theorem from_hex_refines_spec (s : Text) :
+    Rust.fromHex s = Spec.fromHex s ∧ Ossl.fromHex s = Spec.fromHex s :=
+  parsers_eq_spec 16 (Or.inr rfl) s
+
+/-- the guard `is_numeral` of `bn/mod.rs` accepts exactly the texts the specification reads -/
+theorem is_numeral_is_the_grammar (radix : ℕ) (s : Text) :
+    (isNumeral radix s = true → ∃ v, Spec.parseNumeral radix s = ok v) ∧
+    (isNumeral radix s = false → Spec.parseNumeral radix s = err) :=
+  Spec.parseNumeral_isNumeral radix s
+
+/-- the padded hexadecimal text of OpenSSL denotes the number (read by the strict grammar) -/
+theorem ossl_to_hex_reads_back (a : ℤ) : ∃ t, Ossl.toHex a = ok t ∧ Spec.fromHex t = ok a :=
+  Ossl.toHex_reads_back a
 
 /-- **print then parse is the identity**, for every integer, in decimal and hexadecimal, on
 the specification and on both back-ends (each back-end reading its own output) -/
@@ -586,56 +549,38 @@ theorem text_round_trip (a : ℤ) :
   obtain ⟨e1, e2, e3⟩ := to_text_refines_spec a
   refine ⟨hd, hh, ?_, ?_, ?_, ?_⟩
   · rw [e1]; simp only [Spec.toDec, bind_ok] at hd ⊢
-    exact (from_dec_refines_spec_on_numerals _ _ hd).1
+    rw [(from_dec_refines_spec _).1]; exact hd
   · rw [e3]; simp only [Spec.toHex, bind_ok] at hh ⊢
-    exact (from_hex_refines_spec_on_numerals _ _ hh).1
+    rw [(from_hex_refines_spec _).1]; exact hh
   · rw [e2]; simp only [Spec.toDec, bind_ok] at hd ⊢
-    exact (from_dec_refines_spec_on_numerals _ _ hd).2
+    rw [(from_dec_refines_spec _).2]; exact hd
   · obtain ⟨t, ht, hp⟩ := Ossl.toHex_reads_back a
     rw [ht]; simp only [bind_ok]
-    exact (from_hex_refines_spec_on_numerals _ _ hp).2
+    rw [(from_hex_refines_spec _).2]; exact hp
 
-/-- the padded hexadecimal text of OpenSSL denotes the number (read by the strict grammar) -/
-theorem ossl_to_hex_reads_back (a : ℤ) : ∃ t, Ossl.toHex a = ok t ∧ Spec.fromHex t = ok a :=
-  Ossl.toHex_reads_back a
-
-/-- **findings** (text that is not a numeral is accepted): OpenSSL converts the digit prefix
-and ignores the rest; the pure-Rust back-end accepts a leading `+` and skips `_`; a NUL
-character panics in the `openssl` crate -/
-theorem from_dec_findings :
-    Ossl.fromDec "5x".toList = ok 5 ∧ Spec.fromDec "5x".toList = err ∧ Rust.fromDec "5x".toList = err ∧
-    Ossl.fromDec "0x10".toList = ok 0 ∧
-    Rust.fromDec "+5".toList = ok 5 ∧ Spec.fromDec "+5".toList = err ∧ Ossl.fromDec "+5".toList = err ∧
-    Rust.fromDec "1_000".toList = ok 1000 ∧ Ossl.fromDec "1_000".toList = ok 1 ∧
-    Spec.fromDec "1_000".toList = err ∧
-    Ossl.fromDec ['5', Char.ofNat 0] = panic ∧ Rust.fromDec ['5', Char.ofNat 0] = err := by
-  decide
-
-theorem from_hex_findings :
-    Ossl.fromHex "fg".toList = ok 15 ∧ Spec.fromHex "fg".toList = err ∧ Rust.fromHex "fg".toList = err ∧
-    Rust.fromHex "+ff".toList = ok 255 ∧ Ossl.fromHex "+ff".toList = err ∧
-    Rust.fromHex "f_f".toList = ok 255 ∧ Ossl.fromHex "f_f".toList = ok 15 := by
-  decide
-
+/-- the texts on which the unrepaired parsers were lenient are rejected -/
+example : Ossl.fromDec "5x".toList = err ∧ Ossl.fromDec "0x10".toList = err ∧
+    Rust.fromDec "+5".toList = err ∧ Rust.fromDec "1_000".toList = err ∧
+    Ossl.fromDec "1_000".toList = err ∧ Ossl.fromDec ['5', Char.ofNat 0] = err ∧
+    Ossl.fromHex "fg".toList = err ∧ Rust.fromHex "+ff".toList = err ∧
+    Rust.fromHex "f_f".toList = err := by decide
 example : Spec.fromDec "-007".toList = ok (-7) ∧ Rust.fromDec "-007".toList = ok (-7) ∧
-    Ossl.fromDec "-007".toList = ok (-7) := by decide
+    Ossl.fromDec "-007".toList = ok (-7) ∧ Rust.fromHex "-fF".toList = ok (-255) := by decide
 example : Spec.toDec (-255) = ok "-255".toList ∧ Ossl.toHex 4095 = ok "0FFF".toList ∧
     Rust.toHex 4095 = ok "FFF".toList := by decide
 
 /-! ## `generate_prime_in_range`: bounds of the candidate -/
 
-/-- **for all random bytes**, every `size_bits`, `range_bits` that pass the two assertions and
-have `range_bits % 8 ≠ 0`, in both overflow modes: the candidate handed to `is_prime` is
-`2^size + x` with `x < 2^range` odd — i.e. it lies in `[2^size, 2^size + 2^range)` and is odd.
-
-Full statement (false on the pinned tree): without `range % 8 ≠ 0`;
-see `prime_in_range_finding_multiple_of_8`. -/
-theorem prime_in_range_bounds (m : OvfMode) (size range : ℕ) (rnd : Bytes)
-    (h1 : 1 < range) (h2 : range ≤ size) (h8 : range % 8 ≠ 0)
+/-- **for all random bytes** and every `size_bits`, `range_bits` that pass the two assertions
+(in particular also for `range_bits % 8 = 0`): the candidate handed to `is_prime` is
+`2^size + x` with `x < 2^range` odd — i.e. it lies in `[2^size, 2^size + 2^range)` and is odd;
+no step of the construction can overflow, so the result does not depend on the profile. -/
+theorem prime_in_range_bounds (size range : ℕ) (rnd : Bytes)
+    (h1 : 1 < range) (h2 : range ≤ size)
     (hlen : rnd.length = range / 8 + 1) (hb : ∀ b ∈ rnd, b < 256) :
-    ∃ c : ℤ, primeCandidate m size range rnd = ok c ∧
+    ∃ c : ℤ, primeCandidate size range rnd = ok c ∧
       (2 : ℤ) ^ size ≤ c ∧ c < 2 ^ size + 2 ^ range ∧ c % 2 = 1 := by
-  obtain ⟨x, hx, hlt, hodd⟩ := primeCandidate_bounds m size range rnd h1 h2 h8 hlen hb
+  obtain ⟨x, hx, hlt, hodd⟩ := primeCandidate_bounds size range rnd h1 h2 hlen hb
   refine ⟨_, hx, ?_, ?_, ?_⟩
   · push_cast; have : (0 : ℤ) ≤ (x : ℤ) := by positivity
     linarith
@@ -650,22 +595,16 @@ theorem prime_in_range_bounds (m : OvfMode) (size range : ℕ) (rnd : Bytes)
 
 /-- the instance used by the issuer: `e = generate_prime_in_range(LARGE_E_START,
 LARGE_E_END_RANGE)` with the constants regenerated from `constants.rs` (596, 119) -/
-theorem prime_in_range_bounds_e (m : OvfMode) (rnd : Bytes)
+theorem prime_in_range_bounds_e (rnd : Bytes)
     (hlen : rnd.length = Gen.LARGE_E_END_RANGE / 8 + 1) (hb : ∀ b ∈ rnd, b < 256) :
-    ∃ c : ℤ, primeCandidate m Gen.LARGE_E_START Gen.LARGE_E_END_RANGE rnd = ok c ∧
+    ∃ c : ℤ, primeCandidate Gen.LARGE_E_START Gen.LARGE_E_END_RANGE rnd = ok c ∧
       (2 : ℤ) ^ Gen.LARGE_E_START ≤ c ∧
       c < 2 ^ Gen.LARGE_E_START + 2 ^ Gen.LARGE_E_END_RANGE ∧ c % 2 = 1 :=
-  prime_in_range_bounds m _ _ rnd (by decide) (by decide) (by decide) hlen hb
+  prime_in_range_bounds _ _ rnd (by decide) (by decide) hlen hb
 
-/-- **finding**: for `range_bits % 8 = 0` the mask is `u8::MAX >> 8`: a panic with overflow
-checks, and without them the shift wraps to `>> 0`, the top range byte stays fully random and
-the candidate leaves the range (`size = 16, range = 8`, random bytes `FF FF`: `2^16 + 65535`) -/
-theorem prime_in_range_finding_multiple_of_8 :
-    primeCandidate .checked 16 8 [255, 255] = panic ∧
-    primeCandidate .wrapping 16 8 [255, 255] = ok 131071 ∧ ¬ ((131071 : ℤ) < 2 ^ 16 + 2 ^ 8) := by
-  decide
-
-example : primeCandidate .wrapping 10 10 [3, 255] = ok 2047 := by decide
+/-- `range_bits % 8 = 0`, all random bits set: the largest candidate of the range -/
+example : primeCandidate 16 8 [255, 255] = ok 65791 ∧ (65791 : ℤ) < 2 ^ 16 + 2 ^ 8 := by decide
+example : primeCandidate 10 10 [3, 255] = ok 2047 := by decide
 
 /-! ## corpus facts -/
 
